@@ -2,5 +2,6 @@ import NflowsModel.Audit.Tool
 import NflowsModel.Properties.C04
 import NflowsModel.Properties.C04P
 import NflowsModel.Properties.C04X
+import NflowsModel.Properties.C04R
 
 #audit_namespace Properties.C04
